@@ -575,9 +575,73 @@ Proof.
     + intros a. rewrite dropcount_app, <- D, <- (step_dropcount s o s1 r ev1 a I E DE). lia.
 Qed.
 
+(* ---- calls view: the code of module m runs exactly the count changes of the allocations module m created ----------- *)
+Definition incs_on (s : st) (m : nat) (ev : list aev) : nat :=
+  length (filter (fun e => match e with AInc a _ => owner_of s a =? m | _ => false end) ev).
+Definition decs_on (s : st) (m : nat) (ev : list aev) : nat :=
+  length (filter (fun e => match e with ADec a _ => owner_of s a =? m | _ => false end) ev).
+
+Lemma calls_by_owner s m ev :
+  Forall (fun e => match e with AInc a m' | ADec a m' => m' = owner_of s a | _ => True end) ev ->
+  incs_by m ev = incs_on s m ev /\ decs_by m ev = decs_on s m ev.
+Proof.
+  unfold incs_by, incs_on, decs_by, decs_on.
+  induction 1 as [|e ev He _ IH]; [split; reflexivity|]. destruct IH as (IH1 & IH2).
+  destruct e as [a m'|a m'|a v]; cbn [filter]; try subst m'.
+  - split; [|exact IH2]. destruct (owner_of s a =? m); cbn [length]; congruence.
+  - split; [exact IH1|]. destruct (owner_of s a =? m); cbn [length]; congruence.
+  - split; assumption.
+Qed.
+
+(* the per-operation event logs of a history, and the rows of the calls view *)
+Fixpoint steps (s : st) (ops : list aop) : option (st * list (list aev)) :=
+  match ops with
+  | [] => Some (s, [])
+  | o :: os => match astep s o with
+               | Ok (s1, _, ev1) => match steps s1 os with
+                                    | Some (s2, evs) => Some (s2, ev1 :: evs)
+                                    | None => None
+                                    end
+               | _ => None
+               end
+  end.
+Fixpoint odd_rows (rows : list (list Z)) : list (list Z) :=
+  match rows with _ :: c :: rest => c :: odd_rows rest | _ => [] end.
+
 (* from the empty state *)
 Lemma Inv_init : Inv init.
 Proof. split; [constructor|]. intros a. unfold strong_of; cbn. now destruct a. Qed.
+
+Lemma steps_exec : forall ops s f evs, steps s ops = Some (f, evs) -> exec s ops = Some (f, concat evs).
+Proof.
+  induction ops as [|o os IH]; intros s f evs E; cbn [steps exec] in *.
+  - inversion E; subst. reflexivity.
+  - destruct (astep s o) as [[[s1 r] ev1]| |]; try discriminate.
+    destruct (steps s1 os) as [[s2 evs2]|] eqn:E2; [|discriminate]. inversion E; subst.
+    rewrite (IH _ _ _ E2). reflexivity.
+Qed.
+
+Lemma arun_calls_steps : forall ops s rows f, arun_calls_raw s ops = (rows, Some f) ->
+  exists evs, steps s ops = Some (f, evs) /\ odd_rows rows = map (calls_of 1) evs.
+Proof.
+  induction ops as [|o os IH]; intros s rows f E; cbn [arun_calls_raw steps] in *.
+  - inversion E; subst. exists []. split; reflexivity.
+  - destruct (astep s o) as [[[s1 r] ev1]| |]; try discriminate.
+    destruct (arun_calls_raw s1 os) as [rows1 fin] eqn:E1. inversion E; subst.
+    destruct (IH _ _ _ E1) as (evs & S1 & O1). rewrite S1. exists (ev1 :: evs). split; [reflexivity|].
+    cbn [odd_rows map]. now rewrite O1.
+Qed.
+
+Lemma Forall_concat {A} (P : A -> Prop) (ls : list (list A)) : Forall P (concat ls) -> Forall (Forall P) ls.
+Proof. induction ls as [|l ls IH]; cbn [concat]; intros F; [constructor|]. apply Forall_app in F. destruct F. constructor; auto. Qed.
+
+Theorem calls_view ops s evs : steps init ops = Some (s, evs) ->
+  Forall (fun ev => forall m, incs_by m ev = incs_on s m ev /\ decs_by m ev = decs_on s m ev) evs.
+Proof.
+  intros E. pose proof (steps_exec _ _ _ _ E) as X.
+  destruct (exec_inv ops init Inv_init) as (s' & ev' & E' & _ & _ & R & _). rewrite X in E'. inversion E'; subst.
+  apply Forall_concat in R. rewrite Forall_forall in *. intros ev He m. apply calls_by_owner. apply R. exact He.
+Qed.
 
 (* ---- the view of one thread: result rows and handle kinds do not depend on the counts ---------------------------- *)
 Lemma arc_inc_shape s a m s' ev : arc_inc s a m = Ok (s', ev) -> pool s' = pool s /\ length (arcs s') = length (arcs s).
